@@ -282,6 +282,10 @@ func runC13(args []string) error {
 	for _, c := range c13AliasCases() {
 		c13Run(co, "alias", c.tag, c13Input{Script: hx(c.a.b), Base: 1, Limit: 100000})
 	}
+	// 0e. neutral elements: the result is an Integer whatever the operand type
+	for _, c := range c13NeutralCases() {
+		c13Run(co, "neutral", c.tag, c13Input{Script: hx(c.a.b), Base: 1, Limit: 100000})
+	}
 	// 0c. slot initialisation more than once (pairs, triples; one context, across CALL; two scripts on one VM)
 	c13SlotCases(co, r, 8*per)
 	c13LoadCases(co)
